@@ -1,0 +1,22 @@
+//go:build verif
+
+// Machine-checked contracts for package tscommon (read by /verif/govc as text).
+
+package tscommon
+
+// a map entry's value field is never itself a map (protoc), so the recursion is at most one level deep
+//@ func TSFieldType(field *protogen.Field) (r string)
+//@   decreases ite(field.Desc.IsMap(), 1, 0)
+
+// visited-set recursion: every call either inserts a new full name (finitely many exist) or steps from a map
+// entry to its value message, which is never itself a map entry
+//@ func (ms *MessageSet) AddMessage(msg *protogen.Message)
+//@   requires msg != nil
+//@   modifies ms
+//@   decreases 2*spec.remainingM(ms.messages) + ite(msg.Desc.IsMapEntry(), 1, 0)
+//@   ensures grows: forall s string :: inDom(old(ms.messages), s) ==> inDom(ms.messages, s)
+//@   ensures measure: spec.remainingM(ms.messages) <= spec.remainingM(old(ms.messages))
+//@   loop 1 invariant forall s string :: inDom(old(ms.messages), s) ==> inDom(ms.messages, s)
+//@   loop 1 invariant spec.remainingM(ms.messages) <= spec.remainingM(old(ms.messages))
+//@   loop 2 invariant forall s string :: inDom(old(ms.messages), s) ==> inDom(ms.messages, s)
+//@   loop 2 invariant spec.remainingM(ms.messages) < spec.remainingM(old(ms.messages))
